@@ -29,7 +29,7 @@ MANIFEST = {
     "technique": "explicit-state BFS over operation histories of the real object with canonical-state de-duplication and invariants on every state",
 }
 MANIFEST["text"] += " " + (
-    "Added after the seeding waves: where neither a lattice width nor non-emitting states are configured, 'live' is additionally read as 'scheduled for the current round' (nothing can legitimately re-postpone a predecessor there); graphs with a connectivity gap (two islands, two feeder roads) so that continue_with_distance produces live jump entries; width-2 configurations; four configurations with the package logger at DEBUG (stopped entries exist only there); non_emitting_states_maxnb = 1.")
+    "Added after the seeding waves: where neither a lattice width nor non-emitting states are configured, 'live' is additionally read as 'scheduled for the current round' (nothing can legitimately re-postpone a predecessor there); graphs with a connectivity gap (two islands, two feeder roads) so that continue_with_distance produces live jump entries; width-2 configurations; four configurations with the package logger at DEBUG (stopped entries exist only there); non_emitting_states_maxnb = 1; fixed histories beyond the depth bound: jump, FRESH match of a prefix on the same matcher, jump again (and extend).")
 BUDGET = {"quick": 900, "thorough": 3000}
 RULE = ("cases = (graph, trace); below each, one BFS per configuration. states = distinct canonical lattice snapshots reached, "
         "transitions = public operations executed (including replays to rebuild a state), traces validated = states on which all "
@@ -153,6 +153,11 @@ def run_case(case):
             frontier = collections.deque([(case["hist"], None)])
         else:
             frontier = collections.deque([([["M", k]], {"len": k, "width": c.get("width")}) for k in range(1, T + 1)])
+            # four fixed histories beyond the depth bound: jump, then a FRESH match of a prefix on the same matcher, then jump
+            # again (whatever the first jump remembered must not leak into the second lattice)
+            for k in range(2, T + 1):
+                frontier.append(([["M", T], ["C", None], ["M", k], ["C", None]], None))
+                frontier.append(([["M", T], ["C", None], ["M", k], ["C", None], ["X", T]], None))
         while frontier:
             hist, state = frontier.popleft()
             m = ms.make_matcher(mp, c)
